@@ -932,6 +932,68 @@ def raise_handler_programs(info=None):
                                  [prng.randrange(3) for _ in range(8)]], meta={'index': ix})
 
 
+def return_try_space():
+    out = []
+    for ctx in ('plain', 'if', 'else', 'for', 'while'):
+        for body_end in ('return', 'fall'):
+            for h1 in ('return', 'fall', 'raise'):
+                for h2 in ('return', 'fall', 'raise'):
+                    for els in (None, 'return', 'fall'):
+                        for fin in (False, True):
+                            out.append((ctx, body_end, h1, h2, els, fin))
+    return out
+
+
+def _return_try_program(ctx, body_end, h1, h2, els, fin):
+    """A try statement whose protected block, handlers and else clause each either return, fall through or raise, as the
+    LAST statement of a branch / loop body (or at function level), followed by a tail that must run exactly when some
+    path falls through."""
+    L = ['def f(a, b, c):', '    x = a']
+    ind = '    '
+    if ctx == 'if':
+        L.append(ind + 'if d():'); ind += '    '
+    elif ctx == 'else':
+        L += [ind + 'if d():', ind + '    x = tr(20, x)', ind + 'else:']; ind += '    '
+    elif ctx == 'for':
+        L.append(ind + 'for i in n():'); ind += '    '
+    elif ctx == 'while':
+        L.append(ind + 'while d():'); ind += '    '
+
+    def end(kind, slot, exc='E2'):
+        if kind == 'return':
+            return 'return tr(%d, x)' % slot
+        if kind == 'raise':
+            return 'raise %s(tr(%d))' % (exc, slot)
+        return 'x = tr(%d, x)' % slot
+    L += [ind + 'try:',
+          ind + '    x = tr(1, x)',
+          ind + '    if d():',
+          ind + '        raise E1(tr(2))',
+          ind + '    if d():',
+          ind + '        raise E2(tr(3))',
+          ind + '    ' + end(body_end, 4),
+          ind + 'except E1:',
+          ind + '    ' + end(h1, 5, 'E2'),
+          ind + 'except E2:',
+          ind + '    ' + end(h2, 6, 'E1')]
+    if els:
+        L += [ind + 'else:', ind + '    ' + end(els, 7)]
+    if fin:
+        L += [ind + 'finally:', ind + '    tr(8, x)']
+    L += ['    x = tr(9, x)', '    return tr(0, x)']
+    return '\n'.join(L) + '\n'
+
+
+def return_try_programs(info=None):
+    space = return_try_space()
+    if info is not None:
+        info['return_try_space'] = len(space)
+    for ix, t in enumerate(space):
+        yield Program(PRELUDE + _return_try_program(*t), [(1, 2, 3)], {'try', 'raise', 'return', 'rettryfam'}, 'rettryfam',
+                      decisions=[[0] * 8, [1] * 8, [1, 0, 0, 1, 0, 0, 1, 0], [1, 0, 1, 1, 0, 1, 0, 0], [0, 1, 0, 0, 0, 1, 0, 0],
+                                 [1, 1, 0, 0, 1, 0, 0, 1], [2, 0, 1, 0, 2, 0, 1, 0], [2, 1, 0, 0, 1, 1, 0, 0]], meta={'index': ix})
+
+
 BINDING_SCENARIOS = [
     # (name, statement(s) using v as BOTH an outer read and an inner binding; r receives a value)
     ('listcomp_target_shadows_iter', 'r = [v * 2 for v in v]'),
